@@ -40,14 +40,60 @@ func describe(s *prog.Script) string {
 
 var parkPoints = []string{"conn.newstream.afterMeta", "conn.invoke.afterMeta", "conn.newstream.afterCreate", "conn.invoke.afterCreate", "manager.newstream.beforeSet", "conn.invoke.afterInvoke", "manager.sem.acquired", "stream.rawwrite.locked"}
 
-func scenario(id string, seed uint64) runner.Result {
+// lateRecv builds the "late first receive" program: RPC 1 half-closes, its handler returns without
+// sending, and RPC 1's first receive happens only when the next RPC of another goroutine has been
+// created on the connection and sits, with frames written but not yet flushed, at an internal point.
+func lateRecv(r *payload.SplitMix, cfg prog.Config) (all []*prog.Script, groups [][]*prog.Script, point string) {
+	first := &prog.Script{Tag: 1, Clean: true}
+	for i := 0; i < r.Intn(3); i++ {
+		first.Client = append(first.Client, prog.Act{Op: 's', Size: prog.SizeClasses(cfg, r) % 3000})
+	}
+	first.Client = append(first.Client, prog.Act{Op: 'h'}, prog.Act{Op: 'q'}, prog.Act{Op: 'R'})
+	first.Handler = []prog.Act{{Op: 'R'}}
+	var second *prog.Script
+	for {
+		second = prog.GenClean(r, 2, cfg)
+		v := r.Intn(3)
+		if v == 0 && !second.Unary {
+			second.Meta = map[string]string{"rpc": "2"}
+			point = "conn.newstream.afterMeta"
+			break
+		}
+		if v == 1 && second.Unary {
+			second.Meta = map[string]string{"rpc": "2"}
+			point = "conn.invoke.afterMeta"
+			break
+		}
+		if v == 2 && second.Unary {
+			second.Meta = nil
+			point = "conn.invoke.afterInvoke"
+			break
+		}
+	}
+	all = []*prog.Script{first, second}
+	groups = [][]*prog.Script{{first}, {second}}
+	for i := 0; i < r.Intn(3); i++ {
+		s := prog.GenClean(r, uint64(3+i), cfg)
+		all = append(all, s)
+		g := r.Intn(2)
+		groups[g] = append(groups[g], s)
+	}
+	return all, groups, point
+}
+
+func scenario(id string, seed uint64, late bool) runner.Result {
 	r := &payload.SplitMix{S: seed}
 	cfg := prog.GenConfig(r, false)
 	nrpc := 3 + r.Intn(10)
 	ngo := 1 + r.Intn(4)
 	groups := make([][]*prog.Script, ngo)
 	var all []*prog.Script
-	for i := 0; i < nrpc; i++ {
+	latePoint := ""
+	if late {
+		all, groups, latePoint = lateRecv(r, cfg)
+		nrpc, ngo = len(all), len(groups)
+	}
+	for i := 0; i < nrpc && !late; i++ {
 		var s *prog.Script
 		if r.Intn(2) == 0 {
 			s = prog.GenClean(r, uint64(i+1), cfg)
@@ -62,14 +108,36 @@ func scenario(id string, seed uint64) runner.Result {
 				s.Handler = h // both sides would send into full buffers forever
 			}
 		}
+		// a late first receive: it happens when whatever the other goroutines do next has settled,
+		// typically when the next RPC has already been started on the connection
+		if !s.Unary && r.Intn(4) == 0 {
+			for i, a := range s.Client {
+				if a.Op == 'r' || a.Op == 'R' {
+					s.Client = append(append(append([]prog.Act{}, s.Client[:i]...), prog.Act{Op: 'q'}), s.Client[i:]...)
+					break
+				}
+			}
+		}
 		g := r.Intn(ngo)
 		groups[g] = append(groups[g], s)
 		all = append(all, s)
+	}
+	// every RPC of the program ends by itself even under the tightest buffering: then a call that
+	// never returns is not the program's own doing
+	allStrict := true
+	for _, s := range all {
+		if !prog.ValidateStrict(s) {
+			allStrict = false
+		}
 	}
 	x := prog.New(cfg, all)
 	defer x.Rig.Teardown()
 	mode := r.Intn(3)
 	var parks []*director.Park
+	if late {
+		mode = 3
+		parks = append(parks, x.Rig.Dir.ParkAt(latePoint, x.Rig.Pair.A, 1))
+	}
 	switch mode {
 	case 0:
 		x.Rig.Dir.Perturb(seed, 2)
@@ -85,7 +153,10 @@ func scenario(id string, seed uint64) runner.Result {
 		st, _ := census.QuiesceOr(p.Reached(), rig.Watchdog)
 		if st == "ready" {
 			census.Quiesce(rig.Watchdog)
-			if r.Intn(3) == 0 {
+			if late {
+				// the first RPC's 'q' ended together with ours: let its receive happen
+				census.Quiesce(rig.Watchdog)
+			} else if r.Intn(3) == 0 {
 				// the RPC whose goroutine is parked here is abandoned at this very point
 				for _, l := range x.Logs() {
 					if started, done := l.ClientState(); started && !done {
@@ -113,6 +184,7 @@ func scenario(id string, seed uint64) runner.Result {
 	var stuck []string
 	var events int64
 	hung := false
+	stuckClean := false
 	for _, l := range x.Logs() {
 		s := l.Script
 		evs := l.Snapshot()
@@ -123,6 +195,9 @@ func scenario(id string, seed uint64) runner.Result {
 				hung = true
 				cleanOK = false
 				stuck = append(stuck, fmt.Sprintf("rpc%d %c:%s", s.Tag, e.Side, e.Op))
+				if s.Clean {
+					stuckClean = true
+				}
 				continue
 			}
 			wantDir := uint8(1)
@@ -191,6 +266,9 @@ func scenario(id string, seed uint64) runner.Result {
 		}
 		return runner.Violation(id, "isolation:"+strings.Join(f, "-"), hist+"\n"+strings.Join(fails, "\n"))
 	}
+	if hung && allStrict && !closed && stuckClean {
+		return runner.Violation(id, "isolation:rpc-aborted-by-neither-side-never-completes-after-earlier-rpcs", hist+"\nstuck: "+strings.Join(stuck, ", ")+"\n"+census.Dump(snapEnd))
+	}
 	if hung {
 		return runner.Inconcl(id, "a call of the program never returned (progress is decided by C04/C05/C06): "+hist+"\nstuck: "+strings.Join(stuck, ", ")+"\n"+census.Dump(snapEnd))
 	}
@@ -244,7 +322,12 @@ func gen(tier string, seed uint64) []runner.Scenario {
 	for i := 0; i < n; i++ {
 		i := i
 		id := fmt.Sprintf("prog/%d", i)
-		out = append(out, runner.Scenario{ID: id, Run: func() runner.Result { return scenario(id, payload.Hash(seed, 0xC02, uint64(i))) }})
+		out = append(out, runner.Scenario{ID: id, Run: func() runner.Result { return scenario(id, payload.Hash(seed, 0xC02, uint64(i)), false) }})
+	}
+	for i := 0; i < n/10; i++ {
+		i := i
+		id := fmt.Sprintf("late-recv/%d", i)
+		out = append(out, runner.Scenario{ID: id, Run: func() runner.Result { return scenario(id, payload.Hash(seed, 0xC02A, uint64(i)), true) }})
 	}
 	return out
 }
@@ -253,7 +336,7 @@ func main() {
 	runner.Main(runner.Check{
 		Property: "C02",
 		Level:    "exploration",
-		Rule:     "one case = one program of 3-12 RPCs (clean shapes and early-ending kinds at seeded positions, some handlers that keep sending after the client left) issued by 1-4 goroutines on one connection, in a seeded configuration cell, under one of: perturbed scheduling, the client goroutine of later RPCs parked at one of 6 internal points until everything earlier RPCs left behind has been delivered, or plain. Every delivered message carries (rpc tag, direction, sequence, checksum); handler errors carry their rpc number. Non-trivial: all cases. Distinct: by configuration and program text; evidence also counts distinct point-hit sequences.",
+		Rule:     "one case = one program of 3-12 RPCs (clean shapes and early-ending kinds at seeded positions, some handlers that keep sending after the client left) issued by 1-4 goroutines on one connection, in a seeded configuration cell, under one of: perturbed scheduling, the client goroutine of later RPCs parked at one of 6 internal points until everything earlier RPCs left behind has been delivered, or plain; plus the late-first-receive family (an RPC whose first receive happens only after it has finished on the wire and the next RPC of another goroutine sits at an internal point with frames written but not flushed). Every delivered message carries (rpc tag, direction, sequence, checksum); handler errors carry their rpc number. Non-trivial: all cases. Distinct: by configuration and program text; evidence also counts distinct point-hit sequences.",
 		Assumptions: []string{
 			"a clean RPC must succeed completely only if the connection never reported closed during the program (a hard cancel closes it legitimately)",
 			"a call that never returns makes the case inconclusive here (C04/C05/C06 decide progress)",
